@@ -1,5 +1,5 @@
 """C06 — changing the UTC offset never changes the instant."""
-from . import ALL_MODES
+from . import ALL_MODES, T1_CAL, TICK, ADD_EXACT, REZONE, CAL_LEMMAS
 
 ID = "C06"
 LEVEL = "other"
@@ -7,7 +7,8 @@ MODES = ALL_MODES
 FUNCS = ["data:TimePoint.to_time_zone", "data:TimePoint.to_utc",
          "data:TimePoint.to_local_time_zone", "timezone:get_local_time_zone",
          "ghost:rezone_preserves", "ghost:rezone_utc_preserves"]
-LEMMAS = ["opaque.dby.step", "opaque.dby.range", "cal.key.order", "ord.key.order",
+FUNCS = FUNCS + T1_CAL + TICK + ADD_EXACT
+LEMMAS = CAL_LEMMAS + ["opaque.dby.step", "opaque.dby.range", "cal.key.order", "ord.key.order",
           "day.split.unique", "hms.split.unique"]
 CANARIES = ["canary.dby.step.wrong"]
 EXPLANATION = (
